@@ -5,6 +5,7 @@ Lean `TreeState` (apply_diff, rows, links, expand_all) vs the real `<dtml-tree>`
 links it generates.  Oracle: a set-of-paths reference in Python and an independent cookie decoder.
 """
 import base64
+import collections
 import itertools
 import json
 import re
@@ -20,6 +21,23 @@ def indep_decode(text):
     s = text.replace('-', '+')
     s += '=' * (-len(s) % 4)
     return json.loads(zlib.decompress(base64.b64decode(s)).decode('utf-8'))
+
+
+def link_path(text):
+    """the path a link value encodes; a value that cannot be decoded is a path no node has"""
+    try:
+        path = indep_decode(text)
+        return path if isinstance(path, list) and all(isinstance(x, (str, int, float)) for x in path) else ['<not a path>']
+    except Exception:
+        return ['<undecodable>']
+
+
+def cookie_paths(cookie):
+    """the set of expanded paths a state cookie describes, or None when it cannot be decoded"""
+    try:
+        return state_paths(indep_decode(cookie))
+    except Exception:
+        return None
 
 
 def codec_part(res, r, tier, have_driver):
@@ -56,9 +74,15 @@ def codec_part(res, r, tier, have_driver):
     for n in range(0, 40 if tier == 'quick' else 200):
         ids = ['n%d' % i for i in range(n)] + ['nöde-é中', 'x' * 80, 'a"b\\c', '']
         state = [['root', [[i, []] for i in ids[:n + 1]]]]
-        c = TT.encode_seq(state)
         res.evaluations += 1
-        if TT.decode_seq(c) != state or indep_decode(c) != state:
+        try:
+            c = TT.encode_seq(state)
+            same = TT.decode_seq(c) == state and indep_decode(c) == state
+        except Exception as e:
+            res.oracle_fail.append({'case': {'state': state}, 'what': 'cookie round trip raised %s: %.200s' % (
+                type(e).__name__, e)})
+            continue
+        if not same:
             res.oracle_fail.append({'case': {'state': state}, 'what': 'cookie round trip changed the state'})
     if have_driver:
         resp = common.run_driver([q for q, _, _ in reqs])
@@ -75,7 +99,8 @@ def codec_part(res, r, tier, have_driver):
 class Node:
     def __init__(self, nid, kids):
         self.nid = nid
-        self.kids = kids
+        self.kids = kids            # the live list handed to the tag (tpValues returns this very object)
+        self.spec = tuple(kids)     # what the reference reads: frozen when the tree is built
 
     def tpValues(self):
         return self.kids
@@ -90,6 +115,7 @@ class Node:
 class Doc:
     """a leaf object without a tpValues method (a document among folders): the tag supports it through hasattr()"""
     kids = ()
+    spec = ()
 
     def __init__(self, nid):
         self.nid = nid
@@ -136,7 +162,7 @@ def render(root, cookie, param, assume=False):
         if lk:
             row['kind'] = lk.group(3)
             row['enc'] = lk.group(4)
-            row['path'] = indep_decode(lk.group(4))
+            row['path'] = link_path(lk.group(4))
             row['anchor'] = (lk.group(1), lk.group(5))
         rows.append(row)
     return rows, resp.cookies.get('tree-s')
@@ -191,12 +217,12 @@ def label(shape, names, docs=False):
 
 
 def to_model(node, idmap):
-    return [idmap[node.nid], [to_model(k, idmap) for k in node.kids]]
+    return [idmap[node.nid], [to_model(k, idmap) for k in node.spec]]
 
 
 def all_nodes(node):
     yield node
-    for k in node.kids:
+    for k in node.spec:
         yield from all_nodes(k)
 
 
@@ -207,13 +233,13 @@ def expected_rows(root, expanded, assume=False):
         p = path + (node.nid,)
         # with assume_children a node that has not been expanded is ASSUMED to have children and carries an expand link;
         # once expanded, the tag knows: a childless node then shows nothing below it and carries no link any more
-        has = bool(node.kids) or (assume and p not in expanded)
-        exp = bool(node.kids) and p in expanded
+        has = bool(node.spec) or (assume and p not in expanded)
+        exp = bool(node.spec) and p in expanded
         rows.append((node.nid, has, exp, p))
         if exp:
-            for k in node.kids:
+            for k in node.spec:
                 walk(k, p)
-    for k in root.kids:
+    for k in root.spec:
         walk(k, (root.nid,))
     return rows
 
@@ -235,13 +261,27 @@ def run_history(res, root, history_picker, steps, start, r, assume=False):
     """drive the real tag through `steps` clicks; returns (model request, impl snapshots)"""
     idmap = {n.nid: i for i, n in enumerate(all_nodes(root))}
     expanded = set()
+    clicks = []
+    snaps = []
+
+    def request(cookie, param, what):
+        try:
+            return render(root, cookie, param, assume)
+        except Exception as e:      # a page that fails shows no rows at all
+            res.oracle_fail.append({'case': {'tree': repr_tree(root), 'clicks': clicks + [what], 'assume_children': assume,
+                                             'leaves_without_tpValues': any(isinstance(n, Doc) for n in all_nodes(root))},
+                                    'what': 'the last request raised %s: %.200s' % (type(e).__name__, e)})
+            return None
+    req = {'op': 'tree', 'start': start, 'tree': to_model(root, idmap), 'clicks': clicks}
     if start == 'expand_all':
-        rows, cookie = render(root, None, ('expand_all', 1), assume)
+        got = request(None, ('expand_all', 1), {'kind': 'expand_all'})
         expanded = {p for p in paths_with_kids(root)}
     else:
-        rows, cookie = render(root, None, None, assume)
-    snaps = [(rows, cookie)]
-    clicks = []
+        got = request(None, None, {'kind': 'GET'})
+    if got is None:
+        return None, snaps, idmap
+    rows, cookie = got
+    snaps.append((rows, cookie))
     check_snapshot(res, root, rows, cookie, expanded, clicks, assume)
     for _ in range(steps):
         linked = [row for row in rows if 'kind' in row]
@@ -249,22 +289,29 @@ def run_history(res, root, history_picker, steps, start, r, assume=False):
         if choice is None:
             break
         if choice in ('expand_all', 'collapse_all'):
-            rows, cookie = render(root, cookie, (choice, 1), assume)
+            click = {'kind': choice}
+            got = request(cookie, (choice, 1), click)
+            if got is None:
+                break
             expanded = {p for p in paths_with_kids(root)} if choice == 'expand_all' else set()
-            clicks.append({'kind': choice})
         else:
             path = tuple(choice['path'])
+            if any(x not in idmap for x in path):
+                break       # a link that names no node of this tree: reported by check_snapshot above; nothing to click
             kind = 'e' if choice['kind'] == 'tree-e' else 'c'
-            rows, cookie = render(root, cookie, (choice['kind'], choice['enc']), assume)
+            click = {'kind': kind, 'path': [idmap[x] for x in path]}
+            got = request(cookie, (choice['kind'], choice['enc']), click)
+            if got is None:
+                break
             if kind == 'e':
                 expanded.add(path)
             else:
                 expanded = {p for p in expanded if p[:len(path)] != path}
-            clicks.append({'kind': kind, 'path': [idmap[x] for x in path]})
+        rows, cookie = got
+        clicks.append(click)
         res.evaluations += 1
         snaps.append((rows, cookie))
         check_snapshot(res, root, rows, cookie, expanded, clicks, assume)
-    req = {'op': 'tree', 'start': start, 'tree': to_model(root, idmap), 'clicks': clicks}
     return req, snaps, idmap
 
 
@@ -273,11 +320,11 @@ def paths_with_kids(root):
 
     def walk(node, path):
         p = path + (node.nid,)
-        if node.kids:
+        if node.spec:
             out.append(p)
-        for k in node.kids:
+        for k in node.spec:
             walk(k, p)
-    for k in root.kids:
+    for k in root.spec:
         walk(k, (root.nid,))
     return out
 
@@ -306,15 +353,540 @@ def check_snapshot(res, root, rows, cookie, expanded, clicks, assume=False):
     if cookie is None:
         fail('no state cookie written')
         return
-    st = indep_decode(cookie)
-    sp = {p for p in state_paths(st) if len(p) > 1}
+    sp = cookie_paths(cookie)
+    if sp is None:
+        fail('the state cookie %r cannot be decoded' % cookie[:80])
+        return
+    sp = {p for p in sp if len(p) > 1}
     # only what can be seen counts: expansion recorded under a collapsed ancestor must be gone
     if sp != set(expanded):
         fail('cookie describes %s, expected %s' % (sorted(sp), sorted(expanded)))
 
 
+# --------------------------------------------------------------------------- tag options on live application data
+#
+# The histories above use the bare tag.  Here the SAME live object tree is rendered again and again (one request per click,
+# plus reloads and other pages showing the same objects through differently configured tags) under the tag's options:
+# reverse / sort, branches= / branches_expr=, id=, root given as client / by name / by expr, header + footer, leaves,
+# single, skip_unauthorized under an item guard, urlparam, nowrap.  What the rows must be is computed from an immutable
+# description (`Sp`) of the tree, never from the live objects: the tag is handed the application's own containers and
+# whatever it does to them shows up as wrong rows on the next request.
+
+Sp = collections.namedtuple('Sp', 'label sid key kids doc')     # kids: tuple of Sp; doc: leaf without a branches method
+View = collections.namedtuple('View', 'root order sortattr branches idopt extra urlparam nowrap')
+
+STORES = ('own', 'fresh', 'tuple', 'seq')
+ORDERS = ('', 'r', 's', 'sr')
+BRANCHES = ('', 'branches=getKids', 'branches_expr="getKids()"', 'branches_expr="kids"')
+EXTRAS = ('', 'hf', 'leaves', 'single', 'skip', 'guard')
+PLAIN_EXTRAS = ('', 'hf', 'guard')        # these show the same rows for the same state: pages with them may be mixed
+URL_PARAM = 'x=1&amp;y=2'
+
+
+class RoSeq:
+    """a read-only sequence (len + index only), like a lazy query result"""
+
+    def __init__(self, items):
+        self._t = tuple(items)
+
+    def __len__(self):
+        return len(self._t)
+
+    def __getitem__(self, i):
+        return self._t[i]
+
+
+class _Base:
+    _decoy_branches = _decoy_id = False
+
+    def __init__(self, sp, store, fresh):
+        self.label = sp.label
+        self.ident = sp.sid
+        self.key = sp.key
+        self._store = store
+        self._fresh = fresh
+
+    def tpURL(self):
+        return 'u'
+
+    def skey(self):
+        return self.key
+
+
+class _Kids:
+    def tpValues(self):
+        if self._decoy_branches:
+            # the application keeps its children elsewhere (every page names the method): the default method misleads
+            return [DECOY]
+        # 'own' / 'tuple' / 'seq': the container object itself, the same one on every call; 'fresh': a new list per call
+        return list(self._store) if self._fresh else self._store
+
+    def getKids(self):
+        return list(self._store) if self._fresh else self._store
+
+    kids = property(getKids)
+
+
+class _TpId:
+    def tpId(self):
+        # with _decoy_id every page names the id attribute (id=ident); the default method gives every node the same id
+        return 'same' if self._decoy_id else self.ident
+
+
+class LiveNode(_Base, _Kids, _TpId):
+    pass
+
+
+class LiveDoc(_Base, _TpId):
+    pass
+
+
+class OidNode(_Base, _Kids):
+    """no tpId: the tag falls back to the persistent object id"""
+
+
+class OidDoc(_Base):
+    pass
+
+
+def build_live(sp, store, oid, decoy_branches=False, decoy_id=False):
+    kids = [build_live(k, store, oid, decoy_branches, decoy_id) for k in sp.kids]
+    cont = {'own': list, 'fresh': list, 'tuple': tuple, 'seq': RoSeq}[store](kids)
+    cls = ((OidDoc if oid else LiveDoc) if sp.doc else (OidNode if oid else LiveNode))
+    ob = cls(sp, cont, store == 'fresh')
+    ob.sp = sp
+    ob._decoy_branches = decoy_branches
+    ob._decoy_id = decoy_id
+    if oid:
+        ob._p_oid = base64.b64decode(sp.sid)
+    return ob
+
+
+DECOY = LiveDoc(Sp('DECOY', 'DECOY', 0, (), True), (), False)
+# what `this` is when the tag is told its root by name or by expression: some other object with children of its own
+DECOY_CLIENT = build_live(Sp('DECOY-ROOT', 'DECOY-ROOT', 0, (Sp('DECOY-KID', 'DECOY-KID', 0, (), False),), False), 'own', False)
+
+
+def gen_spec(r, nodes, depth, idkind, docs, strkeys):
+    """random tree description; ids unique in the tree, sort keys distinct among siblings and in an order of their own"""
+    odd = ['r', 'nöde é', 'x' * 60, 'a-b', '0', 'Z z', 'ü', 'q']
+    counter = itertools.count()
+    ints = r.sample(range(-5, 90), nodes + 2)
+
+    def shape(depth_left, budget, top=False):
+        kids = []
+        while budget[0] > 0 and depth_left > 0 and (r.random() < 0.65 or (top and not kids)):
+            budget[0] -= 1
+            kids.append(shape(depth_left - 1, budget))
+        return kids
+
+    def mk(kids, key, top=False):
+        i = next(counter)
+        label = (odd[i % 8] + str(i)) if idkind == 'odd' else 'n%d' % i
+        if idkind == 'int':
+            sid = ints[i]
+        elif idkind == 'oid':
+            # 8-byte object ids as the ZODB hands them out, some with bytes that encode to '+' and '/'
+            raw = (i + 1).to_bytes(8, 'big') if i % 3 else bytes([0, 0, 0, 0, 0xfb, 0xef, 0xbe, i])
+            sid = base64.b64encode(raw).decode('ascii')
+        else:
+            sid = label
+        keys = r.sample(range(100), len(kids))
+        if strkeys:
+            keys = ['k%02d' % k for k in keys]
+        subs = tuple(mk(k, keys[j]) for j, k in enumerate(kids))
+        return Sp(label, sid, key, subs, bool(docs and not kids and not top and r.random() < 0.6))
+    return mk(shape(depth, [nodes - 1], True), 0, True)
+
+
+def sp_nodes(sp):
+    yield sp
+    for k in sp.kids:
+        yield from sp_nodes(k)
+
+
+def sp_repr(sp):
+    return [sp.sid if sp.sid == sp.label else [sp.label, sp.sid], sp.key, [sp_repr(k) for k in sp.kids]]
+
+
+def view_source(v):
+    a = []
+    if v.root == 'name':
+        a.append('root')
+    elif v.root == 'expr':
+        a.append('expr="root"')
+    if v.branches:
+        a.append(v.branches)
+    if 's' in v.order:
+        a.append('sort=' + v.sortattr)
+    if 'r' in v.order:
+        a.append('reverse=1')
+    if v.idopt:
+        a.append(v.idopt)
+    if v.extra == 'hf':
+        a.append('header=hdr footer=ftr')
+    elif v.extra == 'leaves':
+        a.append('leaves=lv')
+    elif v.extra == 'single':
+        a.append('single=1')
+    elif v.extra == 'skip':
+        a.append('skip_unauthorized=1')
+    if v.urlparam:
+        a.append('urlparam="%s"' % URL_PARAM)
+    if v.nowrap:
+        a.append('nowrap=1')
+    return '<dtml-tree%s>[[<dtml-var label>]]</dtml-tree>' % ''.join(' ' + x for x in a)
+
+
+_refused = set()        # labels the item guard refuses, set per history
+_views = {}
+_docs = {}
+
+
+def template_for(v):
+    from DocumentTemplate import HTML
+    from DocumentTemplate.DT_Util import ValidationError
+    if not _docs:
+        for name, mark in (('hdr', 'H'), ('ftr', 'F'), ('lv', 'L')):
+            _docs[name] = HTML('<dtml-var standard_html_header>[[#%s#<dtml-var label>]]<dtml-var standard_html_footer>' % mark)
+
+        class Guarded(HTML):
+            """a template class with the two security hooks of DT_String: items are refused by label"""
+
+            def guarded_getitem(self, seq, i):
+                ob = seq[i]
+                if getattr(ob, 'label', None) in _refused:
+                    raise ValidationError('refused')
+                return ob
+
+            def guarded_getattr(self, ob, name, *default):
+                return getattr(ob, name, *default)
+        _docs['Guarded'] = Guarded
+    if v not in _views:
+        # compiled once, then shared by every tree and history that uses this configuration
+        _views[v] = (_docs['Guarded'] if v.extra in ('skip', 'guard') else HTML)(view_source(v))
+    return _views[v]
+
+
+LINK2 = re.compile(r'<a name="([^"]*)" href="([^"?]*)\?([^"#]*?)(tree-[ec])=([^#"&]*)#([^"]*)">')
+
+
+def render_view(v, root, cookie, param):
+    tmpl = template_for(v)
+    resp = Resp()
+    md = {'URL': 'http://host/app/tree', 'RESPONSE': resp, 'hdr': _docs['hdr'], 'ftr': _docs['ftr'], 'lv': _docs['lv']}
+    if cookie is not None:
+        md['tree-s'] = cookie
+    if param:
+        md[param[0]] = param[1]
+    out = tmpl(root, md) if v.root == 'this' else tmpl(DECOY_CLIENT, md, root=root)
+    toks = []
+    for m in ROW.finditer(out):
+        cell = m.group(1)
+        t = TEXT.search(cell)
+        text = t.group(1) if t else None
+        if text is not None and text[:3] in ('#H#', '#F#', '#L#'):
+            toks.append({'t': text[1], 'label': text[3:], 'links': cell.count('<a ')})
+            continue
+        row = {'t': 'row', 'label': text, 'links': cell.count('<a ')}
+        lk = LINK2.search(cell)
+        if lk:
+            row['kind'] = lk.group(4)
+            row['enc'] = lk.group(5)
+            row['path'] = link_path(lk.group(5))
+            row['anchor'] = (lk.group(1), lk.group(6))
+            row['href'] = (lk.group(2), lk.group(3))
+        toks.append(row)
+    return toks, resp.cookies.get('tree-s')
+
+
+def expected_tokens(spec, expanded, v, refused):
+    """what the page must show, from the immutable description: the root's children and, depth first, the children of
+    every expanded node; each sibling group in the order the tag was asked for (the branches' own order, ascending by the
+    sort attribute, reversed); refused items left out under skip_unauthorized; header / footer around every group shown;
+    with `leaves` every childless node can be expanded too and then shows the leaves document"""
+    toks = []
+
+    def visible(node):
+        ks = [k for k in node.kids if not (v.extra == 'skip' and k.label in refused)]
+        if 's' in v.order:
+            ks = sorted(ks, key=lambda k: k.key)
+        if 'r' in v.order:
+            ks = ks[::-1]
+        return ks
+
+    def group(node, p, ks):
+        if v.extra == 'hf':
+            toks.append(('H', node.label))
+        for k in ks:
+            walk(k, p)
+        if v.extra == 'hf':
+            toks.append(('F', node.label))
+
+    def walk(node, path):
+        p = path + (node.sid,)
+        ks = visible(node)
+        link = bool(ks) or v.extra == 'leaves'
+        exp = link and p in expanded
+        toks.append(('row', node.label, link, exp, p))
+        if exp:
+            if ks:
+                group(node, p, ks)
+            else:
+                toks.append(('L', node.label))
+    ks = visible(spec)
+    if ks:
+        group(spec, (spec.sid,), ks)
+    return toks
+
+
+def sp_paths_with_kids(spec):
+    out = set()
+
+    def walk(node, path):
+        p = path + (node.sid,)
+        if node.kids:
+            out.add(p)
+        for k in node.kids:
+            walk(k, p)
+    for k in spec.kids:
+        walk(k, (spec.sid,))
+    return out
+
+
+def data_changed(root):
+    """labels of the nodes whose own container no longer holds its children in the application's order"""
+    out = []
+
+    def walk(ob):
+        kids = list(ob._store)
+        if [getattr(k, 'label', repr(k)[:30]) for k in kids] != [k.label for k in ob.sp.kids]:
+            out.append(ob.label)
+            return
+        for k in kids:
+            walk(k)
+    walk(root)
+    return out
+
+
+def check_view(res, case, root, spec, v, toks, cookie, expanded, refused, check_cookie):
+    def fail(what):
+        c = dict(case)
+        c['page'] = view_source(v)
+        changed = data_changed(root)
+        if changed:
+            what += ' [the children lists of %s, owned by the application, were changed by rendering]' % changed
+        res.oracle_fail.append({'case': c, 'what': what})
+    want = expected_tokens(spec, expanded, v, refused)
+    got_seq = [(t['t'], t['label']) for t in toks]
+    want_seq = [(w[0], w[1]) for w in want]
+    if got_seq != want_seq:
+        show = lambda seq: [(l if k == 'row' else '%s(%s)' % (k, l)) for k, l in seq]  # noqa
+        fail('rows shown %s, expected %s' % (show(got_seq), show(want_seq)))
+        return False
+    ok = True
+    for t, w in zip(toks, want):
+        if w[0] != 'row':
+            if t['links']:
+                fail('%s document row of %r carries a link' % (w[0], w[1]))
+                ok = False
+            continue
+        _, label, link, exp, p = w
+        if ('kind' in t) != link or t['links'] != (1 if link else 0):
+            fail('node %r: %d links, has children=%s' % (label, t['links'], link))
+            ok = False
+        elif link:
+            if tuple(t['path']) != p:
+                fail('link of node %r encodes path %s, expected %s' % (label, t['path'], list(p)))
+                ok = False
+            if (t['kind'] == 'tree-c') != exp:
+                fail('link of node %r is %s but the node is %s' % (
+                    label, 'collapse' if t['kind'] == 'tree-c' else 'expand', 'expanded' if exp else 'collapsed'))
+                ok = False
+            if t['anchor'] != (str(p[-1]), str(p[-1])):
+                fail('link of node %r is anchored at %r, expected %r' % (label, t['anchor'], str(p[-1])))
+                ok = False
+            if t['href'] != ('tree', (URL_PARAM + '&') if v.urlparam else ''):
+                fail('link of node %r leads to %r, expected the page itself%s' % (
+                    label, t['href'], ' with the urlparam' if v.urlparam else ''))
+                ok = False
+    if check_cookie:
+        if v.extra == 'single':
+            pass        # nothing is remembered between requests: the links alone carry the one open branch
+        elif cookie is None:
+            fail('no state cookie written')
+            ok = False
+        else:
+            sp = cookie_paths(cookie)
+            if sp is None:
+                fail('the state cookie %r cannot be decoded' % cookie[:80])
+                return False
+            sp = {p for p in sp if len(p) > 1}
+            if sp != set(expanded):
+                fail('cookie describes %s, expected %s' % (sorted(sp, key=repr), sorted(expanded, key=repr)))
+                ok = False
+    return ok
+
+
+def run_view_history(res, r, spec, store, oid, cfg, views, refused, steps, tag):
+    """one browser session on ONE live object tree: the main page is clicked through; between clicks the page is reloaded
+    or another page (another tag configuration, same objects, same cookie) is looked at"""
+    root = build_live(spec, store, oid, cfg['decoy_branches'], cfg['decoy_id'])
+    main = views[0]
+    _refused.clear()
+    _refused.update(refused)
+    clicks = []
+    case = {'tree [id, sort key, children]': sp_repr(spec), 'children_container': store,
+            'other_pages': [view_source(o) for o in views[1:]], 'refused_items': sorted(refused), 'requests': clicks}
+
+    def request(v, cookie, param):
+        res.evaluations += 1
+        try:
+            return render_view(v, root, cookie, param)
+        except Exception as e:      # a page that fails shows no rows at all
+            try:
+                msg = str(e)[:200]
+            except Exception:
+                msg = '<no message>'
+            c = dict(case)
+            c['page'] = view_source(v)
+            res.oracle_fail.append({'case': c, 'what': 'the last request raised %s: %s' % (type(e).__name__, msg)})
+            return None
+    expanded = set()
+    all_exp = sp_paths_with_kids(spec)
+    may_expand_all = not refused        # see `rule`: expand_all under an item guard is left out (reported)
+    cookie = None
+    clicks.append('GET')
+    got = request(main, cookie, None)
+    if got is None or not check_view(res, case, root, spec, main, got[0], got[1], expanded, refused, True):
+        return
+    toks, cookie = got
+    for _ in range(steps):
+        if r.random() < 0.4:
+            o = r.choice(views)
+            clicks.append(('GET other page %d' % views.index(o)) if o is not main else 'reload')
+            got = request(o, cookie, None)
+            # a page with `single` remembers nothing: without a click in the request every branch is closed
+            seen = set() if o.extra == 'single' else expanded
+            if got is None or not check_view(res, case, root, spec, o, got[0], got[1], seen, refused, False):
+                return
+            if o is not main:
+                res.count('view_other_page_renderings')
+        linked = [t for t in toks if 'kind' in t]
+        c = r.random()
+        if c < 0.06 and may_expand_all:
+            param, what = ('expand_all', 1), 'expand_all'
+            expanded = set(all_exp)
+        elif c < 0.10:
+            param, what = ('collapse_all', 1), 'collapse_all'
+            expanded = set()
+        elif linked:
+            t = r.choice(linked)
+            path = tuple(t['path'])
+            param, what = (t['kind'], t['enc']), '%s %s' % (t['kind'], list(path))
+            if main.extra == 'single':
+                # only one branch open at a time: the one leading to the node clicked
+                top = len(path) if t['kind'] == 'tree-e' else len(path) - 1
+                expanded = {path[:i] for i in range(2, top + 1)}
+            elif t['kind'] == 'tree-e':
+                expanded.add(path)
+            else:
+                expanded = {p for p in expanded if p[:len(path)] != path}
+        else:
+            break
+        clicks.append(what)
+        got = request(main, cookie, param)
+        if got is None or not check_view(res, case, root, spec, main, got[0], got[1], expanded, refused, True):
+            return
+        toks, cookie = got
+    if len(clicks) >= 3:
+        res.nt(('view', tag))
+    if main.order == 'r' and store == 'own' and len(clicks) >= 4:
+        res.sample({'session_on_live_objects': dict(case, page=view_source(main))})
+
+
+def pick_refused(r, spec):
+    labels = [n.label for n in sp_nodes(spec)][1:]
+    return set(r.sample(labels, min(len(labels), r.randint(1, 3)))) if labels else set()
+
+
+def compatible(main, o, store):
+    """may page `o` be looked at in a session that clicks through page `main` on the same objects?"""
+    if (main.extra in PLAIN_EXTRAS) != (o.extra in PLAIN_EXTRAS):
+        return False
+    if main.extra not in PLAIN_EXTRAS and o.extra != main.extra:
+        return False
+    # left out (reported): `sort` sorts a list handed out by the branches method in place, so a page without sort shows
+    # the application's children in sorted order from then on
+    if store == 'own' and ('s' in main.order) != ('s' in o.order):
+        return False
+    return True
+
+
+def options_part(res, r, tier):
+    def rand_view(store, oid, docs, cfg):
+        order = r.choice(ORDERS)
+        if store == 'seq' and 's' in order:
+            order = order.replace('s', '')       # left out (reported): sort needs item assignment
+        branches = r.choice(BRANCHES[1:] if cfg['decoy_branches'] else BRANCHES)
+        if docs and branches.startswith('branches_expr'):
+            branches = 'branches=getKids'        # an expression naming a method a leaf lacks is the template's own error
+        extra = r.choice(EXTRAS + ('', ''))
+        idopt = 'id=ident' if cfg['decoy_id'] else '' if oid else r.choice(('', 'id=ident'))
+        return View(r.choice(('this', 'name', 'expr')), order, r.choice(('key', 'skey')), branches,
+                    idopt, extra, r.random() < 0.3, r.random() < 0.3)
+
+    def session(spec, store, oid, main, tag, steps, n_other):
+        # objects whose default methods mislead whenever the page names its own (the other pages then name them too)
+        cfg = {'decoy_branches': bool(main.branches), 'decoy_id': bool(main.idopt)}
+        others = []
+        docs = any(n.doc for n in sp_nodes(spec))
+        for _ in range(40):
+            if len(others) >= n_other:
+                break
+            o = rand_view(store, oid, docs, cfg)
+            if compatible(main, o, store) and o != main:
+                others.append(o)
+        refused = pick_refused(r, spec) if main.extra == 'skip' else set()
+        res.count('view_order=%s' % (main.order or 'none'))
+        res.count('view_container=%s' % store)
+        res.count('view_extra=%s' % (main.extra or 'none'))
+        res.count('view_branches=%s' % (main.branches.split('=')[0] or 'tpValues'))
+        res.count('view_root=%s' % main.root)
+        res.count('view_histories')
+        run_view_history(res, r, spec, store, oid, cfg, [main] + others, refused, steps, tag)
+
+    big = tier != 'quick'
+    # every order x every kind of children container x every way of naming the branches, bare otherwise
+    for order, store, branches in itertools.product(ORDERS, STORES, BRANCHES):
+        if store == 'seq' and 's' in order:
+            continue
+        for rep in range(3 if big else 1):
+            spec = gen_spec(r, r.randint(5, 10), 3, r.choice(('plain', 'odd', 'int')), False, r.random() < 0.5)
+            main = View(r.choice(('this', 'name', 'expr')), order, r.choice(('key', 'skey')), branches, '', '', False, False)
+            session(spec, store, False, main, ('grid', order, store, branches, rep), 6, r.randint(0, 1))
+    # every further option x every order, on the application's own lists and on tuples
+    for extra, order, store in itertools.product(EXTRAS[1:], ORDERS, ('own', 'tuple')):
+        for rep in range(3 if big else 1):
+            idkind = r.choice(('plain', 'odd', 'int', 'oid'))
+            spec = gen_spec(r, r.randint(5, 11), 3, idkind, r.random() < 0.4, False)
+            oid = idkind == 'oid'
+            docs = any(n.doc for n in sp_nodes(spec))
+            main = View(r.choice(('this', 'name', 'expr')), order, 'key', 'branches=getKids' if docs else r.choice(BRANCHES),
+                        '' if oid else r.choice(('', 'id=ident')), extra, r.random() < 0.5, r.random() < 0.5)
+            session(spec, store, oid, main, ('extra', extra, order, store, rep), 8, r.randint(0, 2))
+    # random sessions
+    for t in range(1200 if big else 160):
+        idkind = r.choice(('plain', 'odd', 'int', 'oid'))
+        spec = gen_spec(r, r.randint(4, 18), 4, idkind, r.random() < 0.4, r.random() < 0.5)
+        store = r.choice(STORES)
+        docs = any(n.doc for n in sp_nodes(spec))
+        main = rand_view(store, idkind == 'oid', docs, {'decoy_branches': False, 'decoy_id': False})
+        session(spec, store, idkind == 'oid', main, ('random', t), r.randint(3, 14), r.randint(0, 2))
+
+
 def repr_tree(node):
-    return [node.nid, [repr_tree(k) for k in node.kids]]
+    return [node.nid, [repr_tree(k) for k in node.spec]]
 
 
 def run(res, tier, have_driver):
@@ -323,8 +895,22 @@ def run(res, tier, have_driver):
                 'patterns, states with long / non-ASCII / empty ids; state: tree shapes with <= 7 nodes and depth <= 4 '
                 '(quick: 200 seeded shapes; thorough: all), click histories on the links the tag generated '
                 '(exhaustive breadth-first up to depth 4 quick / 5 thorough on small trees, random up to 40 on larger '
-                'random trees), expand_all / collapse_all; non-trivial = history with >= 2 clicks of which one collapses '
-                'a node with an expanded descendant, or codec input > 57 bytes')
+                'random trees), expand_all / collapse_all; leaves without a branches method; assume_children; '
+                'tag options on live application data (oracle only): browser sessions of 3..14 clicks on ONE object '
+                'tree that is rendered again for every request, with reloads and other pages (other tag configurations, '
+                'compiled once and shared by all sessions) showing the same objects in between; options = '
+                '{no order, reverse, sort, sort+reverse} x children handed out as {the container\'s own list (same '
+                'object on every call), a fresh list, a tuple, a read-only sequence} x {tpValues, branches=, '
+                'branches_expr calling a method, branches_expr naming an attribute} (full grid), root as client / by '
+                'name / by expr (with a decoy client), id= (with misleading tpId) / tpId / persistent oid / int ids, '
+                'sort attribute plain or method, header+footer, leaves, single, skip_unauthorized with 1..3 refused '
+                'items under an item guard, guard refusing nothing, urlparam, nowrap; expected rows / links / cookie '
+                'come from an immutable description of the tree (never from the live objects) and the documented '
+                'meaning of each option; a request that raises is a failure.  Left out because the unchanged library '
+                'fails them (reported, see partial): prefix=, sort on equal keys, sort on a read-only sequence, a page '
+                'without sort after a page with sort on the container\'s own list, expand_all with refused items; '
+                'non-trivial = history with >= 2 clicks of which one collapses a node with an expanded descendant, '
+                'codec input > 57 bytes, or an option session with >= 3 requests')
     codec_part(res, r, tier, have_driver)
     shapes = gen_trees(tier, r)
     reqs = []
@@ -348,6 +934,8 @@ def run(res, tier, have_driver):
                         return None
                     return linked[i] if i < len(linked) else None
                 req, snaps, idmap = run_history(res, root, picker, len(hist), 'init', r)
+                if req is None:
+                    continue
                 reqs.append((req, snaps, idmap))
                 nlinks = len([row for row in snaps[-1][0] if 'kind' in row])
                 for i in range(nlinks):
@@ -373,7 +961,8 @@ def run(res, tier, have_driver):
                 return 'collapse_all'
             return r.choice(linked) if linked else None
         req, snaps, idmap = run_history(res, root, picker, 40, r.choice(['init', 'init', 'expand_all']), r)
-        reqs.append((req, snaps, idmap))
+        if req is not None:
+            reqs.append((req, snaps, idmap))
         res.nt(('random', t))
         res.count('random_histories')
     # assume_children: every node has a link; expanding a childless node changes only the state (oracle only: outside the model)
@@ -391,8 +980,11 @@ def run(res, tier, have_driver):
         run_history(res, root, picker2, 14, 'init', r, assume=True)
         res.nt(('assume_children', t))
         res.count('assume_children_histories')
-    res.sample({'model_request': reqs[5][0], 'impl_rows_after_last_click': reqs[5][1][-1][0]})
-    res.sample({'model_request': reqs[-1][0]})
+    # the tag's options, on live application data rendered again and again (oracle only: outside the model)
+    options_part(res, common.rng('C20/options'), tier)
+    if len(reqs) > 5:
+        res.sample({'model_request': reqs[5][0], 'impl_rows_after_last_click': reqs[5][1][-1][0]})
+        res.sample({'model_request': reqs[-1][0]})
     if have_driver:
         resp = common.run_driver([q for q, _, _ in reqs])
         for (q, snaps, idmap), rp in zip(reqs, resp):
@@ -408,7 +1000,7 @@ def run(res, tier, have_driver):
                 irows = [[idmap[row['id']], 'kind' in row, row.get('kind') == 'tree-c'] +
                          ([[idmap[x] for x in row['path']]] if 'path' in row else [None]) for row in rows]
                 mrows = [[x[0], x[1], x[2], x[3] if x[1] else None] for x in ms['rows']]
-                ipaths = sorted([idmap[x] for x in p] for p in state_paths(indep_decode(cookie))) if cookie else None
+                ipaths = sorted([idmap.get(x, -1) for x in p] for p in (cookie_paths(cookie) or ())) if cookie else None
                 mpaths = sorted(ms['paths'])
                 if irows != mrows or ipaths != mpaths:
                     res.corr_mismatch.append({'case': q, 'step': k, 'impl': {'rows': irows, 'paths': ipaths},
@@ -419,6 +1011,15 @@ def run(res, tier, have_driver):
                         'clicks are restricted to links the tag generated (the property\'s quantifier)']
     res.partial.append('state-machine refinement (history_invariant) is validated by correspondence and the '
                        'set-of-paths oracle; the codec round trip is proved for all byte strings')
+    res.partial.append('tag options (reverse, sort, branches, id, header/footer, leaves, single, skip_unauthorized, '
+                       'urlparam) are outside the Lean model: decided by the oracle on live object trees only.  Not '
+                       'generated because the unchanged library fails them: <dtml-tree prefix=p> (RuntimeError: '
+                       'dictionary changed size during iteration, every input); sort=attr with two equal keys '
+                       '(TypeError comparing the nodes, and the application\'s list is left holding (key, node) '
+                       'pairs); sort on a sequence without item assignment (TypeError); sort reorders a list handed '
+                       'out by the branches method in place, so another page without sort shows that order; '
+                       'expand_all under skip_unauthorized writes the ids of refused nodes (and of their descendants) '
+                       'into the cookie')
 
 
 def search_more(res, tier):
